@@ -127,3 +127,99 @@ def unit_etheta_params(twin=False):
                 r.add("result.JPRIME==x*dJAY/dx(=x/4+L_DZ*(DK0-DK2))", DISCHARGED if _zero(V - (X / 4 + ldz * (d0 - d2))) else FAILED, "sympy", 0, str(V))
     r.assumptions += ["the Chebyshev coefficient table AKX (Pitzer 1975 / Harvie 1981) is not compared with the literature", "X > 0", "doubles as reals"]
     return r
+
+
+PITZ = "src/phreeqcpp/pitzer.cpp"
+
+
+def _case_stmts(fn, label):
+    for sw in [x for x in A.walk(fn) if x.get("kind") == "SwitchStmt"]:
+        sib = sw["inner"][-1].get("inner", [])
+        for i, c in enumerate(sib):
+            if c.get("kind") != "CaseStmt":
+                continue
+            names = [y.get("referencedDecl", {}).get("name") for y in A.walk(c["inner"][0]) if y.get("kind") == "DeclRefExpr"]
+            if label in names:
+                first = c["inner"][-1]
+                while first.get("kind") == "CaseStmt":
+                    first = first["inner"][-1]
+                out = [first]
+                for nxt in sib[i + 1:]:
+                    if nxt.get("kind") in ("BreakStmt", "CaseStmt", "DefaultStmt"):
+                        break
+                    out.append(nxt)
+                if any("LGAMMA" in text_of(PITZ, o) for o in out):
+                    return out
+    return None
+
+
+def unit_pitzer_mixing_terms(twin=False):
+    """Pitzer mixing terms in pitzer(): for every parameter type whose contribution to the excess Gibbs energy is a monomial of degree
+    d in the molalities (theta d=2, psi/zeta/eta d=3, higher-order electrostatic theta with its ionic-strength derivative), the
+    increments to ln gamma_k (L_k) and to the osmotic sum are derivatives of ONE function: osmotic increment ==
+    (d-1)/(2d) * sum_k m_k L_k + I * (increment of F)  (Euler's relation; (phi-1) sum m = 2*OSMOT).  lambda terms: the tidy step's
+    coefficients satisfy os_coef == (ln_coef[0] + ln_coef[1]) / 4 in both of its branches."""
+    import sympy
+    q = "Phreeqc::pitzer"
+    fn = A.find_function(PITZ, q)
+    r = U.new_unit("C16.pitzer.mixing_terms_gamma_and_phi_from_one_excess_function", PITZ, q, fn)
+    done = 0
+    for label, d in (("TYPE_THETA", 2), ("TYPE_ETHETA", 2), ("TYPE_PSI", 3), ("TYPE_ZETA", 3), ("TYPE_ETA", 3)):
+        stmts = _case_stmts(fn, label)
+        if not stmts:
+            r.add("%s.case_found" % label, UNDECIDED, "syntactic", 0, ""); continue
+        # every accumulating statement of the case is executed on its own from an arbitrary state: increment = new - old
+        flat = []
+        def collect(n_):
+            k_ = n_.get("kind")
+            if k_ in ("CompoundAssignOperator", "BinaryOperator") and n_.get("opcode") in ("+=", "="):
+                flat.append(n_); return
+            for c_ in n_.get("inner", []) or []:
+                if isinstance(c_, dict) and k_ not in ("CompoundAssignOperator",):
+                    collect(c_)
+        for st_ in stmts:
+            collect(st_)
+        cv = B.SymConv()
+        tot = 0; dO = 0; Fi = 0; nL = 0
+        for st_ in flat:
+            lhs = text_of(PITZ, st_["inner"][0])
+            if not (lhs.startswith("LGAMMA[") or lhs in ("OSMOT", "F_var")):
+                continue
+            f, ex, fin, info = region(PITZ, q, [st_], ctx())
+            s = live(fin)[0]
+            M = tm.select(entry_arr(ex, s, ("f", "#vdata", "P")), tm.app("fld:M", (THIS,), "P"))
+            if lhs.startswith("LGAMMA["):
+                (ix, v), = writes(s, ("m", "R"))
+                old = tm.select(entry_arr(ex, s, ("m", "R")), *ix)
+                mk = cv.conv(tm.select(entry_arr(ex, s, ("m", "R")), M, ix[1]))
+                tot = tot + mk * (cv.conv(v) - cv.conv(old)); nL += 1
+            elif lhs == "OSMOT":
+                dO = dO + cv.conv(local(info, s, "OSMOT")) - cv.conv(tm.sym("L_OSMOT", "R"))
+            elif lhs == "F_var" and label == "TYPE_ETHETA":
+                Fi = cv.conv(local(info, s, "F_var"))
+        if nL:
+            import sympy as _sp
+            I = cv.conv(tm.sym("L_I", "R"))
+            want = sympy.Rational(d - 1, 2 * d) * tot + I * Fi
+            if twin:
+                want = want * 2
+            ok = sympy.simplify(sympy.expand(dO - want)) == 0
+            done += 1
+            r.add("%s.osmotic_increment==(d-1)/(2d)*sum(m_k*L_k)%s" % (label, "+I*F_increment" if label == "TYPE_ETHETA" else ""), DISCHARGED if ok else FAILED, "sympy", 0,
+                  "" if ok else "osmotic - Euler = %s" % sympy.simplify(dO - want))
+            r.add("%s.updates_%d_activity_coefficients" % (label, d), DISCHARGED if nL == d else FAILED, "symex", 0, "%d" % nL)
+    r.add("reach.monomial_terms", DISCHARGED if done >= 5 else UNDECIDED, "symex", 0, "%d" % done, kind="vacuity")
+    # lambda coefficients set by pitzer_tidy
+    ft = A.find_function(PITZ, "Phreeqc::pitzer_tidy")
+    t = text_of(PITZ, ft)
+    pairs = re.findall(r"pitz_params\[i\]->os_coef=([\d\.]+);pitz_params\[i\]->ln_coef\[0\]=([\d\.]+);pitz_params\[i\]->ln_coef\[1\]=([\d\.]+);", t) if (re := __import__("re")) else []
+    okl = len(pairs) == 2 and all(abs(float(o) - (float(a) + float(b)) / 4) < 1e-12 for o, a, b in pairs)
+    r.add("lambda.tidy_coefficients_os==(ln0+ln1)/4_in_both_branches", DISCHARGED if okl else FAILED, "exact", 0, repr(pairs))
+    stm = _case_stmts(fn, "TYPE_LAMBDA")
+    tl = "".join(text_of(PITZ, x) for x in (stm or []))
+    r.add("lambda.uses_the_tidy_coefficients", DISCHARGED if "LGAMMA[i0]+=M[i1]*param*pitz_params[i]->ln_coef[0]" in tl and "LGAMMA[i1]+=M[i0]*param*pitz_params[i]->ln_coef[1]" in tl and "OSMOT+=M[i0]*M[i1]*param*pitz_params[i]->os_coef" in tl else FAILED, "syntactic", 0, "", kind="structural")
+    r.assumptions += ["(phi - 1) * sum(m) = 2 * OSMOT (COSMOT = 1 + 2*OSMOT/OSUM, checked textually below)", "distinct species in a monomial term (coincident indices are the lambda / mu coefficient cases)",
+                      "binary B / C terms with their g-functions and the mu-type coefficients are not under this unit", "doubles as reals"]
+    tf = text_of(PITZ, fn)
+    r.add("COSMOT==1+2*OSMOT/OSUM", DISCHARGED if "COSMOT=1.0+2.0*OSMOT/OSUM;" in tf else FAILED, "syntactic", 0, "", kind="structural")
+    return r
